@@ -1148,7 +1148,7 @@ func (r *Runtime) arrayproto_find(call FunctionCall) Value {
 	}
 	for k := int64(0); k < l; k++ {
 		idx := valueInt(k)
-		kValue := o.self.getIdx(idx, nil)
+		kValue := nilSafe(o.self.getIdx(idx, nil))
 		fc.Arguments[0], fc.Arguments[1] = kValue, idx
 		if predicate(fc).ToBoolean() {
 			return kValue
@@ -1168,7 +1168,7 @@ func (r *Runtime) arrayproto_findIndex(call FunctionCall) Value {
 	}
 	for k := int64(0); k < l; k++ {
 		idx := valueInt(k)
-		kValue := o.self.getIdx(idx, nil)
+		kValue := nilSafe(o.self.getIdx(idx, nil))
 		fc.Arguments[0], fc.Arguments[1] = kValue, idx
 		if predicate(fc).ToBoolean() {
 			return idx
@@ -1188,7 +1188,7 @@ func (r *Runtime) arrayproto_findLast(call FunctionCall) Value {
 	}
 	for k := int64(l - 1); k >= 0; k-- {
 		idx := valueInt(k)
-		kValue := o.self.getIdx(idx, nil)
+		kValue := nilSafe(o.self.getIdx(idx, nil))
 		fc.Arguments[0], fc.Arguments[1] = kValue, idx
 		if predicate(fc).ToBoolean() {
 			return kValue
@@ -1208,7 +1208,7 @@ func (r *Runtime) arrayproto_findLastIndex(call FunctionCall) Value {
 	}
 	for k := int64(l - 1); k >= 0; k-- {
 		idx := valueInt(k)
-		kValue := o.self.getIdx(idx, nil)
+		kValue := nilSafe(o.self.getIdx(idx, nil))
 		fc.Arguments[0], fc.Arguments[1] = kValue, idx
 		if predicate(fc).ToBoolean() {
 			return idx
